@@ -365,3 +365,52 @@ func vtimeClass(ns int64, class int) {
 		vassume(ms >= 100)
 	}
 }
+
+// C01 symbolic text: a text line made of symbolic bytes (no '<': the tag-free model of the markup tokenizer) is read
+// as one run whose text is the line with surrounding white space trimmed and the three entities replaced; a line
+// of white space only is blank padding.  BV8.
+func VH_C01_ReadSymbolicText() {
+	n := 1 + choose(vbound("bytes", 4, 6))
+	txt := vsymstr(n, "a &;lt\t")
+	// the line must not itself look like a timing line or be the cue number of a following cue
+	doc := "1\n00:00:01,000 --> 00:00:02,000\nfirst\n" + txt + "\n"
+	s, err := ReadFromSRT(bytes.NewReader([]byte(doc)))
+	vassert(err == nil && len(s.Items) == 1, "C01 text: document accepted")
+	if err != nil || len(s.Items) != 1 {
+		return
+	}
+	// independent spec: trim ASCII white space, replace entities left to right
+	lo, hi := 0, len(txt)
+	for lo < hi && (txt[lo] == ' ' || txt[lo] == '\t') {
+		lo++
+	}
+	for hi > lo && (txt[hi-1] == ' ' || txt[hi-1] == '\t') {
+		hi--
+	}
+	t := txt[lo:hi]
+	want := ""
+	for i := 0; i < len(t); {
+		switch {
+		case i+5 <= len(t) && t[i:i+5] == "&amp;":
+			want += "&"
+			i += 5
+		case i+4 <= len(t) && t[i:i+4] == "&lt;":
+			want += "<"
+			i += 4
+		default:
+			want += t[i : i+1]
+			i++
+		}
+	}
+	it := s.Items[0]
+	if lo == hi {
+		vassert(len(it.Lines) == 1 && vtextOf(&Item{Lines: it.Lines[:1]}) == "first", "C01 text: a white-space-only line at the end is padding, not text")
+		vreach("blank")
+		return
+	}
+	vassert(len(it.Lines) == 2, "C01 text: the first line and the symbolic line")
+	if len(it.Lines) == 2 {
+		vassert(len(it.Lines[1].Items) == 1 && veqstr(it.Lines[1].Items[0].Text, want), "C01 text: trimmed, entities replaced, nothing else changed")
+	}
+	vreach("end")
+}
